@@ -694,7 +694,7 @@ def fr_log(q):
     return math.log(q.numerator) - math.log(q.denominator)
 
 
-E2E_KINDS = ["matern", "matern_ard", "warped", "warped2", "product", "expdecay", "tuple_scale", "warped_product"]
+E2E_KINDS = ["matern", "matern_ard", "warped", "warped2", "product", "expdecay", "tuple_scale", "warped_product", "freezethaw"]
 
 
 def build_model(kind, d, zero_mean, delta_fixed=None, encoding="logarithm"):
@@ -726,9 +726,16 @@ def build_model(kind, d, zero_mean, delta_fixed=None, encoding="logarithm"):
         k1 = Matern52(1, ARD=True, encoding_type=encoding)
         k2 = ExponentialDecayResourcesKernelFunction(Matern52(1, ARD=True, encoding_type=encoding), ScalarMeanFunction(), delta_fixed_value=delta_fixed)
         k = WarpedKernel(ProductKernelFunction(k1, k2), [Warping(3, (2, 3))])
+    elif kind == "freezethaw":
+        # freeze-thaw resource kernel used as a plain kernel over (x, r): learning curves of the SAME configuration are correlated
+        from syne_tune.optimizer.schedulers.searchers.bayesopt.gpautograd.kernel.freeze_thaw import (
+            FreezeThawKernelFunction, FreezeThawMeanFunction)
+        k = FreezeThawKernelFunction(Matern52(max(1, d - 1), ARD=True, encoding_type=encoding), ScalarMeanFunction())
     else:
         raise ValueError(kind)
-    if kind == "expdecay":
+    if kind == "freezethaw":
+        mean = FreezeThawMeanFunction(k)
+    elif kind == "expdecay":
         mean = ExponentialDecayResourcesMeanFunction(k)
     else:
         mean = ZeroMeanFunction() if zero_mean else ScalarMeanFunction()
@@ -741,7 +748,7 @@ def kernel_dim(kind, d):
     if kind == "product":
         d1 = max(1, d // 2)
         return d1 + max(1, d - d1)
-    if kind == "expdecay":
+    if kind in ("expdecay", "freezethaw"):
         return max(1, d - 1) + 1
     if kind == "warped2":
         return max(3, d)
@@ -787,6 +794,12 @@ def features_for(rng, kind, d, n, dups):
     X = np.array([[rng.random() for _ in range(dk)] for _ in range(n)]).reshape(n, dk)
     if kind == "expdecay":
         X[:, -1] = [float(rng.randint(1, 9)) for _ in range(n)]
+    if kind == "freezethaw":
+        # a few configurations, each at several resource levels (rows of one configuration in arbitrary positions)
+        pool = [[rng.random() for _ in range(dk - 1)] for _ in range(max(1, min(3, n)))]
+        for i in range(n):
+            X[i, :-1] = pool[rng.randrange(len(pool))] if rng.random() < 0.8 else [rng.random() for _ in range(dk - 1)]
+            X[i, -1] = float(rng.randint(1, 9))
     if n >= 2 and dups == "dup":
         X[n - 1] = X[0]
     if n >= 2 and dups == "near":
@@ -839,6 +852,10 @@ def run_e2e08(spec):
     Xs = features_for(rng, kind, d, t, "none")
     if n >= 1 and t >= 2:
         Xs[0] = X[0]  # one test point on top of a training point
+    if kind == "freezethaw" and n >= 1:
+        for a in range(t):   # test points: observed configurations at other resource levels, and new configurations
+            if rng.random() < 0.7:
+                Xs[a, :-1] = X[rng.randrange(n), :-1]
     xnew = features_for(rng, kind, d, 1, "none")
     Y = np.array([[rng.gauss(0, 1) for _ in range(m)] for _ in range(n)]).reshape(n, m)
     ynew = np.array([[rng.gauss(0, 1) for _ in range(m)]])
@@ -879,6 +896,25 @@ def run_e2e08(spec):
         hist["params_roundtrip"] = 1
     except NotImplementedError:
         pass
+    if kind == "freezethaw":
+        # k((x, r), (x', r')) = k_x(x, x') + gamma^2 (kappa(r + r') - kappa(r) kappa(r')) [x = x']: the indicator by direct comparison
+        from syne_tune.optimizer.schedulers.searchers.bayesopt.gpautograd.kernel.exponential_decay import (
+            ExponentialDecayResourcesKernelFunction as _ED)
+        al, ml, ga = (np.asarray(z, dtype=float).reshape(-1)[0] for z in k._get_params(X))
+
+        def kap(r):
+            return np.asarray(_ED._compute_kappa(np.asarray(r, dtype=float), al, ml), dtype=float)
+        for A, B, lbl in ((X, X, "k(X, X)"), (X, Xs, "k(X, X*)"), (Xs, Xs, "k(X*, X*)")):
+            same = np.array([[float(np.array_equal(a_[:-1], b_[:-1])) for b_ in B] for a_ in A]).reshape(len(A), len(B))
+            ra, rb = A[:, -1].reshape(-1, 1), B[:, -1].reshape(1, -1)
+            Kc = np.asarray(k.kernel_x(A[:, :-1], B[:, :-1])) + ga ** 2 * (kap(ra + rb) - kap(ra) * kap(rb)) * same
+            Kg = np.asarray(k(A, B))
+            dl = float(np.max(np.abs(Kc - Kg))) if Kc.size else 0.0
+            if not dl <= 1e-10 * max(1.0, float(np.abs(Kc).max()) if Kc.size else 1.0):
+                mon.append(F("c08:kernel-composition", f"freeze-thaw kernel: {lbl} deviates by {dl:.3e} from k_x + gamma^2 (kappa(r+r') - "
+                             f"kappa(r) kappa(r')) [same configuration]", {"spec": spec}))
+                break
+        hist["freezethaw_composition"] = 1
     # composite kernels: the value must be the composition of the parts (each part is the real object)
     if kind in ("warped", "warped2", "warped_product"):
         def warp(Z):
